@@ -62,21 +62,22 @@ func (fdb *fsDb) Dump(ctx context.Context, key []byte) (*db.Dumper, error) {
 }
 
 func (fdb *fsDb) dumpFunc(ctx context.Context) ([]byte, []byte) {
-	if len(fdb.elements) == 0 {
-		return nil, nil
-	}
-	k := fdb.nextElement()
-	kk, err := fdb.DecodeKey(ctx, k)
-	if err != nil {
-		return nil, nil
-	}
-	kkk := append([]byte{k[0]}, kk...)
-	if bytes.HasPrefix(kkk, fdb.matchPrefix) {
-		vv, err := fdb.Get(ctx, kk)
+	// the directory is sorted by file name, which for binary (base64) keys is not
+	// the order of the decoded keys: matching entries need not be adjacent.
+	for len(fdb.elements) > 0 {
+		k := fdb.nextElement()
+		kk, err := fdb.DecodeKey(ctx, k)
 		if err != nil {
-			return nil, nil
+			continue
 		}
-		return kk, vv
+		kkk := append([]byte{k[0]}, kk...)
+		if bytes.HasPrefix(kkk, fdb.matchPrefix) {
+			vv, err := fdb.Get(ctx, kk)
+			if err != nil {
+				return nil, nil
+			}
+			return kk, vv
+		}
 	}
 	return nil, nil
 }
